@@ -174,6 +174,9 @@ class _Session:
             tty = self.tty = W.SimTTY(w, "tty", cols, rows, variant=cfg.get("termios", 0))
             term = self.term = RefTerm(cols, rows)
             out = W.SimTTYOut(w, tty, term)
+            out.bufsize = int(cfg.get("outbuf", 0))
+            if out.bufsize:
+                res.probe("buffered_output_stream")
 
             if cfg["screen"] == "external":
                 screen = prd.Screen(input=W.SimTTYIn(tty), output=out, bracketed_paste_mode=cfg.get("paste", False), focus_reporting=cfg.get("focus", False))
@@ -598,6 +601,7 @@ class SessionEngine(Engine):
             "tiebreak": [rng.randrange(4) for _ in range(8)],
             "items": [rng.choice(["edit", "text", "button", "check", "div"]) for _ in range(rng.randint(1, 5))],
             "extra_idle": rng.random() < 0.3,
+            "outbuf": rng.choice([0, 0, 256, 1 << 16]),
         }
         events = []
         t = 0.125
@@ -683,7 +687,7 @@ class SessionEngine(Engine):
                     for ek in EXCS:
                         yield dict(scen, faults=[{"cat": cat, "idx": idx, "exc": ek}])
             return
-        for fld, val in (("pop_ups", False), ("paste", False), ("focus", False), ("extra_idle", False), ("termios", 0), ("mouse", False)):
+        for fld, val in (("pop_ups", False), ("outbuf", 0), ("paste", False), ("focus", False), ("extra_idle", False), ("termios", 0), ("mouse", False)):
             if cfg.get(fld):
                 yield dict(scen, config=dict(cfg, **{fld: val}))
         if cfg.get("handlers") != ["default"] * 3:
